@@ -847,6 +847,17 @@ pub fn codec_run_c16(rec: &mut CodecRec, rng: &mut Prng, tys: &[CodecTy], bad_g1
                 }
             }
         }
+        // --- human-readable form, structure: a document with its last array element or any one object field
+        //     removed is a truncated document and must be refused (never completed with a default value)
+        if ty.forms().contains(&CODEC_JSON) {
+            for sm in ty.samples.iter().take(if thorough { 3 } else { 1 }) {
+                for (lab, doc) in codec_json_structural_truncations(&sm.json) {
+                    let key = format!("{}|json|{}|{}", ty.name, sm.label, lab);
+                    let det = json!({"base": sm.label, "kind": lab});
+                    codec_c16_expect_err(rec, ty, CODEC_JSON, "json_rejects_truncated_document", key, doc.as_bytes(), det);
+                }
+            }
+        }
         // --- truncation: every proper prefix (byte and bare forms)
         let nsm = if thorough { 3 } else { 1 };
         for sm in ty.samples.iter().take(nsm) {
@@ -975,6 +986,72 @@ pub fn codec_mutations(rng: &mut Prng, enc: &[u8], thorough: bool) -> Vec<(Strin
     out.push(("zeros".into(), vec![0u8; n]));
     out.push(("ones".into(), vec![0xffu8; n]));
     out.push(("empty".into(), vec![]));
+    out
+}
+
+/// a JSON document with the last element of every array, or one field of every object, removed (at any depth)
+pub fn codec_json_structural_truncations(js: &str) -> Vec<(String, String)> {
+    fn walk(v: &serde_json::Value, path: &mut Vec<String>, root: &serde_json::Value, out: &mut Vec<(String, String)>) {
+        fn set_at(root: &serde_json::Value, path: &[String], new: serde_json::Value) -> serde_json::Value {
+            if path.is_empty() {
+                return new;
+            }
+            let mut r = root.clone();
+            {
+                let mut cur = &mut r;
+                for p in &path[..path.len() - 1] {
+                    cur = match cur {
+                        serde_json::Value::Array(a) => &mut a[p.parse::<usize>().unwrap()],
+                        serde_json::Value::Object(o) => o.get_mut(p).unwrap(),
+                        _ => unreachable!(),
+                    };
+                }
+                let last = &path[path.len() - 1];
+                match cur {
+                    serde_json::Value::Array(a) => a[last.parse::<usize>().unwrap()] = new,
+                    serde_json::Value::Object(o) => {
+                        o.insert(last.clone(), new);
+                    }
+                    _ => unreachable!(),
+                }
+            }
+            r
+        }
+        match v {
+            serde_json::Value::Array(a) => {
+                // arrays of numbers are byte strings (variable-length payloads among them): a shorter one is another value
+                if !a.is_empty() && !a.iter().all(|x| x.is_number()) {
+                    let mut b = a.clone();
+                    b.pop();
+                    let doc = set_at(root, path, serde_json::Value::Array(b));
+                    out.push((format!("array_at_{}_minus_last", path.join(".")), doc.to_string()));
+                }
+                for (i, x) in a.iter().enumerate().take(4) {
+                    path.push(i.to_string());
+                    walk(x, path, root, out);
+                    path.pop();
+                }
+            }
+            serde_json::Value::Object(o) => {
+                for k in o.keys() {
+                    let mut b = o.clone();
+                    b.remove(k);
+                    let doc = set_at(root, path, serde_json::Value::Object(b));
+                    out.push((format!("object_at_{}_minus_{}", path.join("."), k), doc.to_string()));
+                }
+                for (k, x) in o.iter() {
+                    path.push(k.clone());
+                    walk(x, path, root, out);
+                    path.pop();
+                }
+            }
+            _ => {}
+        }
+    }
+    let mut out = vec![];
+    if let Ok(root) = serde_json::from_str::<serde_json::Value>(js) {
+        walk(&root, &mut vec![], &root, &mut out);
+    }
     out
 }
 
